@@ -66,7 +66,7 @@ pub fn checks() -> Vec<Check> {
             st("c01.s4", c01::s4, (0, 0), 3, "hooked packet capacity 1..9 x npoints 0..3c+1 x every catalogue type"),
             st("c01.s6", c01::s6, (0, 0), 3, "extension attribute of every catalogue type at the first/last prototype position x capacity {1,3} x npoints {0,1,4} x one or two registered extensions"),
             st("c01.s7", c01::s7, (0, 0), 3, "every attribute-group subset (3 coordinate kinds x 2^10 group/flag bits, invalid combinations skipped), 5 points, capacity 2"),
-            Stage { timeout_s: 60, ..st("c01.s8", c01::s8, (0, 0), 3, "scale: 255/256/257/300 point clouds in one file; 65535/65536/65537 points in one cloud; 300 and 70000 one-point data packets (hooked capacity 1)") },
+            Stage { timeout_s: 60, ..st("c01.s8", c01::s8, (0, 0), 3, "scale: 255/256/257/300 point clouds in one file; 65535/65536/65537 points in one cloud; 300 and 70000 one-point data packets (hooked capacity 1); XYZ + 100..5900 extension records with one point more than a natural data packet takes; 4 bit-packed prototypes x 5 natural capacities + 3 points") },
             st("c01.s2deep", c01::s2deep, (0, 0), 3, "all writer programs of depth exactly 4 (quick: 20 736) / 5 (thorough: 248 832) over a 12-op sub-alphabet (4 blob sizes, 2 images, 6 clouds)"),
             st("c01.s5", c01::s5, (0, 0), 2, "two hooked-capacity clouds around a pad blob at all 255 residues x prototype pairs"),
         ],
@@ -320,7 +320,7 @@ pub fn checks() -> Vec<Check> {
         id: "C17",
         level: "model_checking",
         stages: vec![
-            st("c17.histories", c17::histories, (0, 0), 3, "7 file variants (intact; payload / blob / checksum damage; destroyed section id and packet header; illegal invalid-state value in the middle of a cloud) x all read-op histories of depth 3 (thorough 4) on one reader"),
+            st("c17.histories", c17::histories, (0, 0), 3, "8 file variants (intact; payload / blob / checksum damage; destroyed section id and packet header; illegal invalid-state value in the middle of a cloud; two clouds sharing one GUID) x all read-op histories of depth 3 (thorough 4) on one reader"),
             st("c17.faults", c17::faults, (0, 0), 3, "2 file variants x warm-up op x faulted op x one-shot device error at every device operation of the faulted op x every following op on the healthy device"),
             Stage { timeout_s: 60, ..st("c17.far", c17::far, (0, 0), 3, "306-page file (cloud of 26000 points, image blob, second cloud) x 17 damaged-page choices (12 pages behind the big cloud, 4 inside it, none) x all ordered pairs of read operations on one reader vs fresh-reader results") },
             st("c17.pairs", c17::pairs, (0, 0), 3, "page reader on a 300-page image x every damaged page q (payload / checksum bit) x every other page a: read a, read q (must fail), read a, on one reader"),
@@ -338,6 +338,8 @@ pub fn checks() -> Vec<Check> {
             st("c18.elements", c18::elements, (0, 0), 3, "6 base documents (3 writer, 3 e57spec) x every insertion position inside every Structure/Vector/CompressedVector element outside prototypes x 88 local names (every name the reader searches for + an unknown one) x 4 foreign element shapes"),
             st("c18.attributes", c18::attributes, (0, 0), 3, "6 base documents x every standard element x 6 foreign attributes (vx:type, vx:fileOffset, vx:recordCount, vx:length, vx:minimum, vx:precision)"),
             st("c18.proto_extensions", c18::proto_extensions, (0, 0), 3, "extension attribute named like 6 standard attributes and 6 other accepted names x 5 namespace prefixes x every position in the prototype x optional second extension attribute: written by the real writer, read back exactly"),
+            st("c18.scoped_ns", c18::scoped_ns, (0, 0), 3, "2 documents x 2 extension prefixes x declaration moved from e57Root to {record element, prototype, points, data3D child}: prototype names, points and metadata reported as before"),
+            st("c18.depth", c18::depth, (0, 0), 3, "2 documents x {below e57Root, inside a data3D child} x foreign elements nested to a maximum depth of 100 / 200 / 254 / 255 / 256 tags (256 is the documented limit): report unchanged"),
         ],
         extra: None,
         rule: "full products; the inserted content is always in a namespace different from the E57 namespace (prefix declared on the inserted element) and well-formed (checked with the independent parser); oracle = the report on the unmodified base document (root fields, every descriptor, points and blobs); evaluations = (position, name, shape) triples",
@@ -352,6 +354,7 @@ pub fn checks() -> Vec<Check> {
             st("c19.layouts", c19::layouts, (2, 3), 3, "11 scenes encoded by e57spec under every layout with <=2 (thorough <=3) deviations: copy, compare as read, copy the copy (byte-identical), write twice (byte-identical)"),
             st("c19.programs", c19::programs, (0, 0), 3, "outputs of all writer programs of depth <=2 (thorough <=3) and 1905 metadata-rich files (every catalogue string in every string field, 5 image kinds rotating)"),
             st("c19.align", c19::align, (0, 0), 3, "first cloud of 0..344 byte-sized points moves the second cloud's section of the copy through all 255 aligned residues of the page payload"),
+            Stage { timeout_s: 60, ..st("c19.bulk", c19::bulk, (0, 0), 3, "4 bit-packed prototypes (12/12/12/2, 10/10/10/8, 7/7/7, 21/21/21/3 bits) x 5 natural packet capacities + 3 points, source encoded independently: copy, compare, copy the copy") },
             st("c19.bundled", c19::bundled, (0, 0), 3, "every bundled /repo/testdata/*.e57 that opens and whose prototypes follow the writer's documented rules"),
             Stage { twice: true, ..st("c19.determinism", c19::determinism, (0, 0), 3, "all writer programs of depth <=2 executed in two separate sets of worker processes: per-case file bytes must be identical") },
         ],
